@@ -643,4 +643,67 @@ def branchLocal : IR → Bool
   | .streamMap _ a b | .streamFilter _ a b | .streamAgg _ a b | .aggFilter a b => branchLocal a && branchLocal b
   | .ite a b c | .streamFold _ _ a b c => branchLocal a && branchLocal b && branchLocal c
 
+/-! ## One step of common-subexpression elimination at the specification level
+
+`abstractAt x v F t`: every occurrence of the subterm `v` in `t` is replaced by `(Ref x)`, except below a binder that rebinds one
+of the variables `F` of `v` (there the occurrence means something else) and inside aggregation nodes.  Binding `x` to `v` in a
+`Let` immediately above `t` — the bind site — is then meaning-preserving (`Props/C35.lean::cse_step_preserves`). -/
+
+/-- every name occurring in a term: references and binders -/
+def names : IR → List Name
+  | .ref y => [y]
+  | .i32 _ | .i64 _ | .f32 _ | .f64 _ | .str _ | .bool _ | .na _ | .anil _ | .snil | .tnil => []
+  | .cast a _ | .ascribe a _ | .isNA a | .un _ a | .arrayLen a | .toArray a | .toStream a | .getField a _ | .getTupleElement a _
+  | .toSet a | .toDict a | .agg _ a => names a
+  | .bin _ a b | .cmp _ a b | .acons a b | .arrayRef a b | .scons _ a b | .insertField a _ b | .tcons a b | .dictGet a b
+  | .aggFilter a b => names a ++ names b
+  | .ite a b c => names a ++ names b ++ names c
+  | .let_ x a b | .streamMap x a b | .streamFilter x a b | .streamAgg x a b | .aggLet x a b => x :: (names a ++ names b)
+  | .streamFold acc w a z b => acc :: w :: (names a ++ names z ++ names b)
+
+def abstractAt (x : Name) (v : IR) (F : List Name) : IR → IR
+  | .i32 n => if IR.i32 n = v then .ref x else .i32 n
+  | .i64 n => if IR.i64 n = v then .ref x else .i64 n
+  | .f32 n => if IR.f32 n = v then .ref x else .f32 n
+  | .f64 n => if IR.f64 n = v then .ref x else .f64 n
+  | .str s => if IR.str s = v then .ref x else .str s
+  | .bool b => if IR.bool b = v then .ref x else .bool b
+  | .na t => if IR.na t = v then .ref x else .na t
+  | .ref y => if IR.ref y = v then .ref x else .ref y
+  | .anil t => if IR.anil t = v then .ref x else .anil t
+  | .snil => if IR.snil = v then .ref x else .snil
+  | .tnil => if IR.tnil = v then .ref x else .tnil
+  | .cast a t => if IR.cast a t = v then .ref x else .cast (abstractAt x v F a) t
+  | .ascribe a t => if IR.ascribe a t = v then .ref x else .ascribe (abstractAt x v F a) t
+  | .isNA a => if IR.isNA a = v then .ref x else .isNA (abstractAt x v F a)
+  | .un op a => if IR.un op a = v then .ref x else .un op (abstractAt x v F a)
+  | .arrayLen a => if IR.arrayLen a = v then .ref x else .arrayLen (abstractAt x v F a)
+  | .toArray a => if IR.toArray a = v then .ref x else .toArray (abstractAt x v F a)
+  | .toStream a => if IR.toStream a = v then .ref x else .toStream (abstractAt x v F a)
+  | .getField a f => if IR.getField a f = v then .ref x else .getField (abstractAt x v F a) f
+  | .getTupleElement a i => if IR.getTupleElement a i = v then .ref x else .getTupleElement (abstractAt x v F a) i
+  | .toSet a => if IR.toSet a = v then .ref x else .toSet (abstractAt x v F a)
+  | .toDict a => if IR.toDict a = v then .ref x else .toDict (abstractAt x v F a)
+  | .bin op a b => if IR.bin op a b = v then .ref x else .bin op (abstractAt x v F a) (abstractAt x v F b)
+  | .cmp op a b => if IR.cmp op a b = v then .ref x else .cmp op (abstractAt x v F a) (abstractAt x v F b)
+  | .acons a b => if IR.acons a b = v then .ref x else .acons (abstractAt x v F a) (abstractAt x v F b)
+  | .arrayRef a b => if IR.arrayRef a b = v then .ref x else .arrayRef (abstractAt x v F a) (abstractAt x v F b)
+  | .scons f a b => if IR.scons f a b = v then .ref x else .scons f (abstractAt x v F a) (abstractAt x v F b)
+  | .insertField a f b => if IR.insertField a f b = v then .ref x else .insertField (abstractAt x v F a) f (abstractAt x v F b)
+  | .tcons a b => if IR.tcons a b = v then .ref x else .tcons (abstractAt x v F a) (abstractAt x v F b)
+  | .dictGet a b => if IR.dictGet a b = v then .ref x else .dictGet (abstractAt x v F a) (abstractAt x v F b)
+  | .ite a b c => if IR.ite a b c = v then .ref x else .ite (abstractAt x v F a) (abstractAt x v F b) (abstractAt x v F c)
+  | .let_ y a b => if IR.let_ y a b = v then .ref x
+    else .let_ y (abstractAt x v F a) (if y ∈ F then b else abstractAt x v F b)
+  | .streamMap y a b => if IR.streamMap y a b = v then .ref x
+    else .streamMap y (abstractAt x v F a) (if y ∈ F then b else abstractAt x v F b)
+  | .streamFilter y a b => if IR.streamFilter y a b = v then .ref x
+    else .streamFilter y (abstractAt x v F a) (if y ∈ F then b else abstractAt x v F b)
+  | .streamFold acc w a z b => if IR.streamFold acc w a z b = v then .ref x
+    else .streamFold acc w (abstractAt x v F a) (abstractAt x v F z) (if acc ∈ F ∨ w ∈ F then b else abstractAt x v F b)
+  | .streamAgg y a q => .streamAgg y a q
+  | .aggLet y a b => .aggLet y a b
+  | .aggFilter a b => .aggFilter a b
+  | .agg op a => .agg op a
+
 end HailVerif.ExprIR
